@@ -327,3 +327,9 @@ Section HomologyCalc.
   Definition homology (C : complex) : option (list (Z * summand R)) :=
     omap (fun i => do h <- homology_at C i; Some (i, h)) (c_support C).
 End HomologyCalc.
+
+Arguments complex R : clear implicits.
+Arguments mk_complex {R} _ _ _.
+Arguments c_support {R} _.
+Arguments c_ddeg {R} _.
+Arguments c_dmat {R} _ _.
